@@ -12,7 +12,10 @@ CONSUMERS = re.compile(
     r"(collect|collect_into_vec|collect_vec_list|partition|partition_map|unzip|unzip_into_vecs|for_each|for_each_with|for_each_init|try_for_each\w*|"
     r"reduce|reduce_with|try_reduce\w*|try_fold\w*|sum|product|min|max|min_by\w*|max_by\w*|find_any|find_first|find_last|find_map_any|find_map_first|"
     r"position_any|position_first|position_last|any|all|count|while_some|par_extend|from_par_iter|cmp|partial_cmp|eq|ne|lt|le|gt|ge)$")
-ADAPTORS_BAD = re.compile(r"^rayon::iter::\w+::(panic_fuse|with_min_len|with_max_len|by_exponential_blocks|by_uniform_blocks|take_any|skip_any|take_any_while|skip_any_while)$")
+# adaptors whose result depends on scheduling or on how rayon splits the work: *_any (completion order), block/len tuning,
+# and the per-split state adaptors (map_init/map_with/fold*: one state value is shared by however many items land in a split)
+ADAPTORS_BAD = re.compile(r"^rayon::iter::\w+::(panic_fuse|with_min_len|with_max_len|by_exponential_blocks|by_uniform_blocks|take_any|skip_any|take_any_while|skip_any_while|"
+                          r"map_init|map_with|fold|fold_with|try_fold|try_fold_with|fold_chunks|fold_chunks_with)$")
 ORDERED = re.compile(r"^(std::vec::Vec<.*>|std::collections::BTreeMap<.*>|std::collections::BTreeSet<.*>|std::string::String|\(\))$")
 
 
